@@ -49,3 +49,12 @@ Theorem C06_follower_commit_clamped : forall st l pi pt ents c l' last,
   l_committed l' = N.max (l_committed l) (N.min c (pi + nlen ents)).
 Proof. exact ProposalProofs.follower_commit_clamped. Qed.
 Print Assumptions C06_follower_commit_clamped.
+
+(* what the quorum count rests on is re-learnt in every term: reset (every change of term or role)
+   leaves Match = 0 and StateProbe for every peer, so an acknowledgement of an earlier term, whose
+   entries may have been replaced since, never counts towards a commit of the new term *)
+Theorem C06_new_term_forgets_matches : forall st r t r' id pr,
+  reset st r t = Ok r' -> In (id, pr) (t_progress (r_trk r')) -> id <> r_id r ->
+  pr_match pr = 0 /\ pr_state_ pr = StateProbe /\ pr_pending_snapshot pr = 0 /\ pr_recent_active pr = false.
+Proof. exact LocalProofs.reset_forgets_matches. Qed.
+Print Assumptions C06_new_term_forgets_matches.
